@@ -52,7 +52,8 @@ def has_backslash(tokens):
 def item(args):
     els, kind, is_bytes = args
     api = F if kind == 'fnmatch' else G
-    txt = P.render(els)
+    raw = isinstance(els, str)          # raw pattern text: only the obligations that do not need the token structure
+    txt = els if raw else P.render(els)
     pt = txt.encode('latin-1') if is_bytes else txt
     base = (G.G | G.E) if kind == 'glob' else F.E
     out = []
@@ -73,13 +74,16 @@ def item(args):
     try:
         ins = rx(pt, base | W.IGNORECASE | W.FORCEUNIX)
         cmp('C17.lang.insensitive_mode_closed_under_ASCII_case_of_the_name', ins, R.Mapped(ins, lower, range(65, 91)), base | W.IGNORECASE | W.FORCEUNIX, 'name vs lower(name)')
-        sw = P.render(swap_tokens(els))
-        spt = sw.encode('latin-1') if is_bytes else sw
-        cmp('C17.lang.insensitive_mode_unchanged_by_case_of_literal_pattern_text', ins, rx(spt, base | W.IGNORECASE | W.FORCEUNIX), base | W.IGNORECASE | W.FORCEUNIX, f'pattern vs {sw!r}')
+        if not raw:
+            sw = P.render(swap_tokens(els))
+            spt = sw.encode('latin-1') if is_bytes else sw
+            cmp('C17.lang.insensitive_mode_unchanged_by_case_of_literal_pattern_text', ins, rx(spt, base | W.IGNORECASE | W.FORCEUNIX), base | W.IGNORECASE | W.FORCEUNIX, f'pattern vs {sw!r}')
         cmp('C17.lang.CASE_wins_over_IGNORECASE', rx(pt, base | W.IGNORECASE | W.CASE | W.FORCEUNIX), rx(pt, base | W.CASE | W.FORCEUNIX), base | W.IGNORECASE | W.CASE | W.FORCEUNIX, 'C|I vs C')
         cmp('C17.lang.FORCEWIN_plus_FORCEUNIX_cancel', rx(pt, base | W.FORCEWIN | W.FORCEUNIX), rx(pt, base), base | W.FORCEWIN | W.FORCEUNIX, 'W|U vs neither')
         win = rx(pt, base | W.FORCEWIN)
         cmp('C17.lang.FORCEWIN_slash_and_backslash_in_the_name_interchangeable', win, R.Mapped(win, slash, [92]), base | W.FORCEWIN, 'name vs name with \\\\ -> /')
+        if raw:
+            return out
         if not has_backslash(els):
             cmp('C17.lang.FORCEWIN_equals_unix_IGNORECASE_on_the_slash-normalised_name', win, R.Mapped(ins, slash, [92]), base | W.FORCEWIN, 'win(name) vs unix|I(name with \\\\ -> /)')
         winc = rx(pt, base | W.FORCEWIN | W.CASE)
@@ -149,6 +153,9 @@ def run(chk, tier, seed):
              mk([(L('a'), ('q',), L('b'))]), mk([(L('a'), ('br', True, (('ch', 'x'),)), L('b'))]), mk([(L('a'), ('br', False, (('rng', 'a', 'z'),)), L('b'))]), mk([(L('a'),), (L('B'),)], trail=True),
              mk([(('ext', '@', ((L('a'),), (L('B'),))),), (('star',),)]), mk([(L('a'), ('esc', '\\'), L('b'))]), mk([(('star',), ('q',), L('A'))]), mk([(L('a'),), (L('B'),)], lead=True)]
     items = [(p, 'fnmatch', False) for p in names] + [(p, 'glob', False) for p in paths] + [(p, 'fnmatch', True) for p in names[::5]] + [(p, 'glob', True) for p in paths[::3]]
+    # raw texts: escaped backslashes inside bracket expressions (a separator under the Windows rules), mixed with case
+    rawtexts = ['a[\\\\]b', 'a[xY\\\\]b', 'a[!\\\\]b', '[\\\\a]*', 'a[\\\\][\\\\]b', '?(a[\\\\])B', 'a\\\\b', 'a[/]b', 'a[!/]b']
+    items += [(t, 'fnmatch', False) for t in rawtexts] + [(t, 'fnmatch', True) for t in rawtexts[:3]] + [(t, 'glob', False) for t in rawtexts]
     if tier != 'quick':
         g = P.Gen(seed + 170, alphabet='aAbB.c', path=True)
         items += [(g.name_pattern(5, 2), 'fnmatch', False) for _ in range(3000)] + [(g.path_pattern(3, 3, 1), 'glob', False) for _ in range(3000)]
